@@ -59,6 +59,14 @@ CHECKS = {
          "Data races are detected by TSan's happens-before analysis (largely schedule independent); value corruption shows as a hash difference against the solo run. 1500 workloads (quick), 6000 incl. sched_yield storms (thorough), one fresh process each.",
          "Interleavings are not enumerated: a corruption that needs one precise schedule and involves no detectable race is not decided. Objects documented as not thread-safe are not shared.",
          "DESIGN.md section 3/C14"),
+ "C07": ("rapidcheck", "property-based testing against 50-digit closed forms (boost cpp_bin_float_50): forward conversion, completeness of Reverse over 40 orders of magnitude with every regime of the solver populated, least-|h| by a 50-digit scan of the normal-foot equation, rotation matrices vs the east/north/up frame, LocalCartesian vs the rigid motion R0^T (G - G0)",
+         "Every finite (X,Y,Z) class (centre, axis, equatorial plane, singular disc, evolute, far field, denormals, overflowing hypot) is generated; the reverse result must re-project to the input within 2 x (7 nm a/a0 + 4 eps |r|); documented err_h/err_out/err_in for geophysical heights.",
+         "Beyond |f| = 0.02 the re-projection tolerance carries a calibrated factor ((a/b)^0.75 oblate, (b/a)^1.5 prolate). Reference ref/mp.cpp self-tested.",
+         "DESIGN.md section 3/C07"),
+ "C11": ("rapidcheck", "property-based testing against Snyder's closed forms evaluated with 50/100-digit arithmetic: forward values, round trips, scale on the standard parallels, origin latitude / central scale, Jacobian by 4th-order finite differences (conformality, equal area incl. a rectangle-area shoelace test), constructor equivalence, limits, hemisphere symmetry",
+         "Polar stereographic, Lambert conformal conic and Albers equal area over single, nearly equal, symmetric, polar and southern parallel pairs, the sin/cos constructors down to cos = 1e-300, prolate/sphere/oblate ellipsoids; position tolerance 2 x 10 nm scaled by the local stretch.",
+         "Three open known findings (C11-lcc-reverse-k-nearpolar, C11-albers-origin-nearpole, C11-albers-reverse-overflow) are excluded by region. Albers has no documented accuracy: calibrated round-off law. LCC pairs outside the domain stated in its header are skipped.",
+         "DESIGN.md section 3/C11"),
  "C01": ("rapidcheck", "property-based testing against an independent long-double geodesic-ODE reference; differential across 8 solver/line configurations; metamorphic reversal",
          "Generated-input exploration: every generated direct problem is compared with a reference that integrates the geodesic equation itself (no series, no auxiliary sphere), to 2x the documented accuracy for the flattening. Exploration is the right level: the property quantifies over a continuum of inputs and an executable oracle exists.",
          "Trusts: the reference ODE integrator (self-checked per case by step halving, constraint projection), x87 long double, the tolerance formulas of DESIGN section 2 (2x documented accuracy, scaled by length in quarter circuits). Errors below the documented accuracy are not violations.",
